@@ -747,6 +747,26 @@ def shell_rules(env, res):
     for var in mapping:
         if var not in EXPECTED_SH and var not in ("INPUT_ARGS",):
             res.add("R13.g", "action-run.sh/%s/unknown" % var, "action-run.sh consumes %s, which has no CLI counterpart in the rule table" % var, "scripts/action-run.sh")
+    # the wrapper is a flat option-to-argv mapping: every statement must be one of the recognised forms, so that
+    # nothing else can transform the values on their way to the CLI (fails closed on anything unknown)
+    ALLOWED = [
+        r"^#", r"^set -euo pipefail$", r"^is_true\(\) \{$", r"^case \"\$\{1:-\}\" in$", r"^true\|TRUE\|True\|1\|yes\|YES\|Yes\) return 0 ;;$",
+        r"^\*\) return 1 ;;$", r"^esac$", r"^\}$", r"^fi$", r"^done$", r"^args=\(\)$", r"^exit [01]$", r"^echo .*$",
+        r"^if \[\[ -n \"\$\{INPUT_[A-Z_]+:-\}\" \]\]; then$", r"^if is_true \"\$\{INPUT_[A-Z_]+:-\}\"; then$",
+        r"^if \[\[ \$\{#args\[@\]\} -eq 0 \]\]; then$",
+        r"^args\+=\((--[a-z-]+ )?\"\$\{INPUT_[A-Z_]+\}\"\)$", r"^args\+=\(--[a-z-]+\)$", r"^args\+=\(--mutators \"\$mutator\"\)$",
+        r"^IFS=', ' read -r -a mutators <<< \"\$\{INPUT_MUTATORS\}\"$", r"^for mutator in \"\$\{mutators\[@\]\}\"; do$",
+        r"^\[\[ -z \"\$mutator\" \]\] && continue$", r"^pickle-fuzzer \$\{INPUT_ARGS\}$", r"^pickle-fuzzer \"\$\{args\[@\]\}\"$",
+    ]
+    for ln in text.splitlines():
+        s = ln.strip()
+        if not s:
+            continue
+        n += 1
+        if not any(re.match(p, s) for p in ALLOWED):
+            res.add("R13.g", "action-run.sh/statement/%s" % re.sub(r"[^A-Za-z0-9_]+", "_", s)[:60],
+                    "action-run.sh contains a statement outside the recognised option-to-argv forms: `%s` (it may transform option values before they reach the CLI)" % s,
+                    "scripts/action-run.sh")
     if not re.search(r'pickle-fuzzer "\$\{args\[@\]\}"', text):
         res.add("R13.g", "action-run.sh/invocation", "action-run.sh does not invoke `pickle-fuzzer \"${args[@]}\"`", "scripts/action-run.sh")
     # is_true accepts true/1/yes
